@@ -73,6 +73,11 @@ type Obligation struct {
 	Cover   bool // reachability check: expected SAT
 	Lemma   bool
 	ExtraAs []*Term
+	Script  string
+	Scripts []string // case split: the obligation holds iff every case is unsat
+	ScriptsG []string
+	ScriptG string   // same query with the remaining quantified assumptions dropped
+	groundPass bool
 	// results
 	Result  string // unsat / sat / unknown / timeout / trivial
 	Solver  string
@@ -130,6 +135,9 @@ type FnExec struct {
 	iterCells map[*ssa.Range]int
 	iterSort  map[int]string
 	allocs    []*ssa.Alloc
+	wfDone    map[string]bool
+	epochCtr  map[int]*Term
+	branchAtoms []*Term
 	storePos  token.Pos
 	entryFacts int
 }
@@ -158,7 +166,7 @@ func (e *FnExec) addFact(st *State, f *Term) {
 	if f == nil || f == True {
 		return
 	}
-	e.facts = append(e.facts, Imp(st.reach, f))
+	e.facts = append(e.facts, Imp(st.reach, skolemizeExists(f)))
 }
 
 func (e *FnExec) pos(p token.Pos) token.Position {
@@ -168,25 +176,36 @@ func (e *FnExec) pos(p token.Pos) token.Position {
 	return e.P.fset.Position(p)
 }
 
-// assert records a proof obligation and then assumes it.
+// assert records a proof obligation and then assumes it. Top-level conjunctions are split into
+// one obligation per conjunct (smaller queries, more precise failure names).
 func (e *FnExec) assert(st *State, kind string, goal *Term, pos token.Pos, clause string, label string) {
-	if goal == True {
-		// still count it: it was discharged by construction
-		e.kindN[kind]++
-		name := fmt.Sprintf("%s:%s#%d", e.key, kind, e.kindN[kind])
+	e.kindN[kind]++
+	base := fmt.Sprintf("%s:%s#%d", e.key, kind, e.kindN[kind])
+	sk := skolemize(goal)
+	parts := []*Term{sk}
+	if sk.Op == "app" && sk.Name == "and" {
+		parts = sk.Args
+	} else if sk.Op == "app" && sk.Name == "=>" && sk.Args[1].Op == "app" && sk.Args[1].Name == "and" {
+		parts = nil
+		for _, c := range sk.Args[1].Args {
+			parts = append(parts, Imp(sk.Args[0], c))
+		}
+	}
+	for i, g := range parts {
+		name := base
+		if len(parts) > 1 {
+			name = fmt.Sprintf("%s.%d", base, i+1)
+		}
 		if label != "" {
 			name += ":" + label
 		}
-		e.obls = append(e.obls, &Obligation{Name: name, Kind: kind, Func: e.key, Goal: goal, Guard: st.reach, NFacts: len(e.facts), exec: e, Pos: e.pos(pos), Clause: clause, Result: "trivial"})
-		return
+		o := &Obligation{Name: name, Kind: kind, Func: e.key, Goal: g, Guard: st.reach, NFacts: len(e.facts), exec: e, Pos: e.pos(pos), Clause: clause, Inputs: e.inputs}
+		if g == True {
+			o.Result = "trivial"
+			o.Inputs = nil
+		}
+		e.obls = append(e.obls, o)
 	}
-	e.kindN[kind]++
-	name := fmt.Sprintf("%s:%s#%d", e.key, kind, e.kindN[kind])
-	if label != "" {
-		name += ":" + label
-	}
-	o := &Obligation{Name: name, Kind: kind, Func: e.key, Goal: skolemize(goal), Guard: st.reach, NFacts: len(e.facts), exec: e, Pos: e.pos(pos), Clause: clause, Inputs: e.inputs}
-	e.obls = append(e.obls, o)
 	e.addFact(st, goal)
 }
 
@@ -194,7 +213,47 @@ func (e *FnExec) assert(st *State, kind string, goal *Term, pos token.Pos, claus
 
 func (e *FnExec) memVar(class, sort string, epoch int) *Term {
 	e.classes[class] = sort
-	return Var(fmt.Sprintf("%s@%d", class, epoch), sort)
+	name := fmt.Sprintf("%s@%d", class, epoch)
+	v := Var(name, sort)
+	if !e.wfDone[name] {
+		e.wfDone[name] = true
+		ctr := e.epochCtr[epoch]
+		if ctr == nil {
+			ctr = Var("ctr@0", "Int")
+		}
+		if f := wfMemFact(v, sort, ctr); f != nil {
+			e.facts = append(e.facts, f)
+		}
+	}
+	return v
+}
+
+// wfMemFact: memory only holds references to objects that are already allocated.
+func wfMemFact(arr *Term, sort string, ctr *Term) *Term {
+	es := arrayElemSort(sort)
+	l := BVar("wl", "Loc")
+	sel := App("select", es, arr, l)
+	switch {
+	case es == "Loc":
+		return Forall([]*Term{l}, Lt(App("root", "Int", sel), ctr))
+	case es == "Slice":
+		return Forall([]*Term{l}, And(Lt(App("root", "Int", App("sarr", "Loc", sel)), ctr), Le(IntLit(0), App("slen", "Int", sel)),
+			Le(App("slen", "Int", sel), App("scap", "Int", sel)), Le(IntLit(0), App("soff", "Int", sel))))
+	case strings.HasPrefix(es, "(Array ") && arrayElemSort(es) == "Loc":
+		ks := es[len("(Array ") : len(es)-len(" Loc)")]
+		k := BVar("wk", ks)
+		return Forall([]*Term{l, k}, Lt(App("root", "Int", App("select", "Loc", sel, k)), ctr))
+	}
+	return nil
+}
+
+// freshMem creates an unconstrained memory array that still satisfies wfMemFact.
+func (e *FnExec) freshMem(st *State, prefix, sort string) *Term {
+	v := Fresh(prefix, sort)
+	if f := wfMemFact(v, sort, st.ctr); f != nil {
+		e.addFact(st, f)
+	}
+	return v
 }
 
 func (e *FnExec) getMem(st *State, class, sort string) *Term {
@@ -216,6 +275,7 @@ func (e *FnExec) havocAll(st *State, why string) {
 	nc := Fresh("ctr", "Int")
 	e.addFact(st, Le(st.ctr, nc))
 	st.ctr = nc
+	e.epochCtr[st.epoch] = nc
 }
 
 // load reads a value of Go type t at location loc.
@@ -354,6 +414,7 @@ func (e *FnExec) merge(ins []*State, conds []*Term) *State {
 	out := &State{cells: map[int]*Term{}, mem: map[string]*Term{}}
 	out.reach = Or(conds...)
 	sameEpoch := true
+	mergedEpoch := false
 	for _, s := range ins[1:] {
 		if s.epoch != ins[0].epoch {
 			sameEpoch = false
@@ -401,12 +462,16 @@ func (e *FnExec) merge(ins []*State, conds []*Term) *State {
 		}
 		e.P.epochs++
 		out.epoch = e.P.epochs
+		mergedEpoch = true
 	}
 	for k := range classKeys {
 		k := k
 		out.mem[k] = pick(func(s *State) *Term { return e.getMem(s, k, e.classes[k]) })
 	}
 	out.ctr = pick(func(s *State) *Term { return s.ctr })
+	if mergedEpoch {
+		e.epochCtr[out.epoch] = out.ctr
+	}
 	seen := map[*ssa.Defer]bool{}
 	for _, s := range ins {
 		for _, d := range s.defers {
@@ -948,14 +1013,14 @@ func (e *FnExec) enterLoop(li *loopInfo, in *State) *State {
 					continue // stores to this class inside the loop fail their loop-frame obligation
 				}
 				old := e.getMem(in, c, s)
-				nw := Fresh("lh_"+c, s)
+				nw := e.freshMem(st, "lh_"+c, s)
 				l := BVar("l", "Loc")
 				es := arrayElemSort(s)
 				e.addFact(st, Forall([]*Term{l}, Imp(Not(inItems(l, c, li.items)), Eq(App("select", es, nw, l), App("select", es, old, l)))))
 				e.setMem(st, c, s, nw)
 				continue
 			}
-			e.setMem(st, c, s, Fresh("lh_"+c, s))
+			e.setMem(st, c, s, e.freshMem(st, "lh_"+c, s))
 		}
 		if allocs {
 			nc := Fresh("ctr", "Int")
